@@ -144,7 +144,7 @@ func recvNamed(f *ssa.Function) *types.Named {
 }
 
 func checkC17(p *Prog, r *Report) {
-	r.Explain("STRTOTAL: every index, slice, division and type assertion in every String/Extension/TagName/Name method of a library type and in the library functions it calls is an obligation for the E3 bounds prover, with the receiver ranging over its whole type (negative values of signed types included) and no credit for recover frames; slices of a name string by an offset table are discharged by IDXTBL (table non-decreasing, last entry within the string, index+1 proved in range). NILF: a call through a function value in these functions is dominated by its nil test or goes through a gap-free package-level function table. INITORD: walking each package initialiser in the compiler's order, no initialiser calls (through static calls or the String/Error methods of values boxed for fmt) a function that reads a table of the same package initialised later. NARROW: a stringer never narrows its receiver to a smaller integer type before looking it up unless the value is proved to fit (two values that differ only in the dropped bits would get the same name). STRFOLD: the stringer of every integer-based type is constant-folded (loop-free decision tree over immutable tables: comparisons, table/map/string indexing, returns) on every declared constant and on the boundary values of the type; a fold that ends in a panic is a violation with the value as witness. TBLNAME: where a String method looks its receiver up directly in a package-level table of names (array, slice or map), folding String(k) for every non-empty row k gives exactly that row's name — no row is cut off by a guard or shadowed. DOCNAME: where the type's doc comment lists N: \"Name\" rows the folded name of N equals the documented one. RT: FromString(String(v)) == v for every declared image type and IdentifyNamespace(String(ns)) == ns for every declared XMP namespace.")
+	r.Explain("STRTOTAL: every index, slice, division and type assertion in every String/Extension/TagName/Name method of a library type and in the library functions it calls is an obligation for the E3 bounds prover, with the receiver ranging over its whole type (negative values of signed types included) and no credit for recover frames; slices of a name string by an offset table are discharged by IDXTBL (table non-decreasing, last entry within the string, index+1 proved in range). NILF: a call through a function value in these functions is dominated by its nil test or goes through a gap-free package-level function table. INITORD: walking each package initialiser in the compiler's order, no initialiser calls (through static calls or the String/Error methods of values boxed for fmt) a function that reads a table of the same package initialised later. NARROW: a stringer never narrows its receiver to a smaller integer type before looking it up unless the value is proved to fit (two values that differ only in the dropped bits would get the same name). STRFOLD: the stringer of every integer-based type is constant-folded (loop-free decision tree over immutable tables: comparisons, table/map/string indexing, returns) on every declared constant and on the boundary values of the type; a fold that ends in a panic is a violation with the value as witness. TBLNAME: where a String method looks its receiver up directly in a package-level table of names (array, slice or map), folding String(k) for every non-empty row k gives exactly that row's name — no row is cut off by a guard or shadowed. SUBTAG: IfdType.TagName folded on the rows of spec/subifd_tag_names.json (the strip pointers are PreviewImageStart/Length in the numbered sub-directories, JpgFromRawStart/Length in SubIfd2, StripOffsets/ByteCounts in IFD0). DOCNAME: where the type's doc comment lists N: \"Name\" rows the folded name of N equals the documented one. RT: FromString(String(v)) == v for every declared image type and IdentifyNamespace(String(ns)) == ns for every declared XMP namespace.")
 	r.Trusted("map reads never panic", "fmt.Sprintf with a constant verb-free format returns the format", "strings.ToLower on ASCII", "strings/bytes Index*, LastIndex*: -1 <= r <= len(s)-1 (<= len(s) for substring searches)")
 	ms := strMethods(p)
 	r.Extra("stringer_methods", len(ms))
@@ -267,6 +267,8 @@ func checkC17(p *Prog, r *Report) {
 		}
 	}
 	ruleTblName(p, r, fd, ms)
+	ruleSubTag(p, r, fd)
+	r.Floor("SUBTAG", 15)
 	r.Floor("TBLNAME", 5)
 	r.Extra("stringers_folded", folded)
 	r.Extra("stringers_not_foldable", undec)
